@@ -82,6 +82,9 @@ pub enum RxKind {
     Add,
     /// one SourceBlockDecoder per block, fed in the network's batches
     Block,
+    /// one Decoder driven through both interfaces: each packet goes through decode() or through
+    /// add_new_packet() (+ get_result()), chosen by a fixed function of the packet id
+    Mixed,
 }
 
 #[derive(Clone, Debug, Serialize, Deserialize, PartialEq)]
@@ -229,6 +232,7 @@ struct Replica {
 enum RxImpl {
     Dec(Decoder, Ans),
     Add(Decoder),
+    Mix(Decoder, Ans),
     Blk(Vec<SourceBlockDecoder>, Vec<Option<Vec<u8>>>),
 }
 
@@ -305,15 +309,15 @@ pub struct Exec {
 
 fn build_rx(kind: RxKind, threshold: Option<u32>, oti: &Oti, cfg: &ObjectTransmissionInformation, ks: &[u32]) -> RxImpl {
     match kind {
-        RxKind::Decode | RxKind::Add => {
+        RxKind::Decode | RxKind::Add | RxKind::Mixed => {
             let mut d = Decoder::new(*cfg);
             if let Some(t) = threshold {
                 d.verif_set_sparse_threshold(t);
             }
-            if kind == RxKind::Decode {
-                RxImpl::Dec(d, Ans::None)
-            } else {
-                RxImpl::Add(d)
+            match kind {
+                RxKind::Decode => RxImpl::Dec(d, Ans::None),
+                RxKind::Add => RxImpl::Add(d),
+                _ => RxImpl::Mix(d, Ans::None),
             }
         }
         RxKind::Block => {
@@ -356,6 +360,25 @@ impl RxImpl {
                     None => Ans::None,
                 }
             }
+            RxImpl::Mix(d, last) => {
+                for p in batch {
+                    let id = p.payload_id();
+                    let via_decode = (id.encoding_symbol_id() / 3 + id.source_block_number() as u32) % 2 == 0;
+                    *last = if via_decode {
+                        match d.decode(p.clone()) {
+                            Some(v) => Ans::Some(v),
+                            None => Ans::None,
+                        }
+                    } else {
+                        d.add_new_packet(p.clone());
+                        match d.get_result() {
+                            Some(v) => Ans::Some(v),
+                            None => Ans::None,
+                        }
+                    };
+                }
+                last.clone()
+            }
             RxImpl::Blk(ds, res) => {
                 // one decode(iter) call per block, in order of first appearance in the batch
                 let mut order: Vec<u8> = vec![];
@@ -391,6 +414,13 @@ impl RxImpl {
                 Some(v) => Ans::Some(v),
                 None => Ans::None,
             },
+            RxImpl::Mix(d, last) => {
+                *last = match d.get_result() {
+                    Some(v) => Ans::Some(v),
+                    None => Ans::None,
+                };
+                last.clone()
+            }
             RxImpl::Blk(ds, res) => {
                 let r = ds[sbn as usize].decode(std::iter::empty());
                 res[sbn as usize] = r;
@@ -421,7 +451,7 @@ fn blk_answer(res: &[Option<Vec<u8>>], f: u64) -> Ans {
 }
 
 fn other_kind(k: RxKind, salt: usize) -> RxKind {
-    let all = [RxKind::Decode, RxKind::Add, RxKind::Block];
+    let all = [RxKind::Decode, RxKind::Add, RxKind::Block, RxKind::Mixed];
     let others: Vec<RxKind> = all.iter().copied().filter(|x| *x != k).collect();
     others[salt % others.len()]
 }
@@ -689,7 +719,15 @@ impl Exec {
     }
 
     fn sender_panic(&self, what: &str, p: String) -> Fail {
-        self.fail("C18", format!("sender-panic:{}", panic_class(&p)), format!("{what} panicked: {p}"))
+        // attributed to the property whose check is running
+        let prop = if self.oracles.c18 {
+            "C18"
+        } else if self.oracles.c08 {
+            "C08"
+        } else {
+            "C01"
+        };
+        self.fail(prop, format!("sender-panic:{}", panic_class(&p)), format!("{what} panicked: {p}"))
     }
 
     fn apply_inner(&mut self, ev: &Event) -> Result<(), Fail> {
@@ -746,6 +784,9 @@ impl Exec {
                     self.counters.inc("windows");
                     if k + s + n == 1 << 24 {
                         self.counters.inc("probe_window_ends_at_last_esi");
+                    }
+                    if *n >= 1000 {
+                        self.counters.inc("probe_bulk_window");
                     }
                     if ps.len() != *n as usize {
                         return Err(self.fail("C18", "window-shape".into(), format!("repair_packets({s},{n}) returned {} packets", ps.len())));
@@ -918,6 +959,7 @@ impl Exec {
                 Some(v) => Ans::Some(v),
                 None => Ans::None,
             },
+            RxImpl::Mix(_, last) => last.clone(),
             RxImpl::Blk(_, res) => blk_answer(res, self.oti.f),
         }
     }
@@ -1075,7 +1117,7 @@ impl Exec {
                     }
                     if *v != self.data {
                         let pos = v.iter().zip(self.data.iter()).position(|(a, b)| a != b).unwrap_or(0);
-                        return Err(self.fail("C01", "wrong-bytes".into(), format!("receiver {rx} returned an object that differs from the original at byte {pos}")));
+                        return Err(self.fail("C01", "wrong-bytes".into(), format!("receiver {rx} returned an object that differs from the original at byte {pos} (got {:02x?}, original {:02x?})", &v[pos..(pos + 8).min(v.len())], &self.data[pos..(pos + 8).min(self.data.len())])));
                     }
                 }
                 Ans::None => {
